@@ -142,7 +142,7 @@ theorem atomFull_good : GoodAtom env0 atomFull := by
   have h2 : setNames.contains atomFull.name = false := by decide
   have h3 : versionLikeNames.contains atomFull.name = true := by decide
   simp only [h1, if_false, h2, Bool.false_eq_true, h3, if_true]
-  refine ⟨by unfold Atom.Coherent; decide, ⟨by decide, ?_, ?_⟩, fun h => absurd h (by decide), fun h => absurd h (by decide)⟩
+  refine Or.inr ⟨by unfold Atom.Coherent; decide, ⟨by decide, ?_, ?_⟩, fun h => absurd h (by decide), fun h => absurd h (by decide)⟩
   · exact Spec.fromClause_textInv ⟨.ge, { release := [3, 8, 1] }, false⟩ _ (by simp [fromClause])
   · apply Spec.boundsIn_of_allVers
     simp [Spec.AllVers, Range.AllVers, atomFull, Spec.FinalV, Ver.isFinal]
@@ -166,7 +166,7 @@ theorem atomPvGt_good : GoodAtom env0 atomPvGt := by
   have h2 : setNames.contains atomPvGt.name = false := by decide
   have h3 : versionLikeNames.contains atomPvGt.name = true := by decide
   simp only [h1, if_false, h2, Bool.false_eq_true, h3, if_true]
-  refine ⟨by unfold Atom.Coherent; decide, ?_, ?_, ?_⟩
+  refine Or.inr ⟨by unfold Atom.Coherent; decide, ?_, ?_, ?_⟩
   · exact nice_of_clause ⟨.gt, { release := [3, 8] }, false⟩ _ (by simp [fromClause]) ⟨rfl, rfl, by simp⟩
   · intro _ ns hns
     have hnorm : normalizePythonVersion atomPvGt = some (.ver ((Spec.range {}).and normGe39)) := by decide
@@ -181,6 +181,30 @@ theorem atomPvGt_good : GoodAtom env0 atomPvGt := by
     intro i hi
     match i, hi with
     | i + 2, _ => simp
+
+/-- `"3.8" ~= python_version` as the parser builds it (literal on the left, `~=` has no mirror image): its
+    specifier view `~=3.8` is NOT what it evaluates to, so after the `fix:` it is never merged
+    (`Atom.exactView = false`) and is a Good, opaque atom -/
+def atomRevCompat : Atom :=
+  ⟨"python_version", .compat, "3.8", true,
+   .ver (.range { min := some { release := [3, 8] }, max := some { release := [4, 0] }, incMin := true,
+                  text := some ⟨.compat, { release := [3, 8] }, false⟩ })⟩
+
+theorem atomRevCompat_good : GoodAtom env0 atomRevCompat := by
+  refine ⟨by unfold Atom.WF; decide, ?_⟩
+  have h1 : atomRevCompat.name ≠ "extra" := by decide
+  have h2 : setNames.contains atomRevCompat.name = false := by decide
+  have h3 : versionLikeNames.contains atomRevCompat.name = true := by decide
+  simp only [h1, if_false, h2, Bool.false_eq_true, h3, if_true]
+  exact Or.inl (by decide)
+
+/-- the specifier view of that atom really is inexact: in an environment with python_version 3.6 the atom
+    is true (`~=3.6` contains 3.8) while `~=3.8` does not admit 3.6 — merging through the view was the defect -/
+example : ¬ atomRevCompat.Coherent (fun n => if n == "python_version" then some (.str "3.6") else env0 n) := by
+  unfold Atom.Coherent; decide
+
+/-- and it is not merged: `"3.8" ~= python_version and python_version > "3.8"` stays a conjunction -/
+example : mergeSingle atomRevCompat atomPvGt true = none := by decide
 
 /-- instances of the character-level facts (now theorems), evaluated in the kernel -/
 example : SpecParse.parseAltsText ((MOp.ofCOp .ge).str ++ fsText "python_full_version" ⟨.ge, { release := [3, 8] }, false⟩)
